@@ -251,6 +251,9 @@ class C11(Property):
         ("antismash/detection/sideloader/__init__.py", "is_enabled"),
         ("antismash/detection/sideloader/__init__.py", "run_on_record"),
         ("antismash/detection/sideloader/general.py", "load_single_record_annotations"),
+        ("antismash/detection/sideloader/data_structures.py", "SubRegionAnnotation.from_schema_json"),
+        ("antismash/detection/sideloader/data_structures.py", "ProtoclusterAnnotation.from_schema_json"),
+        ("antismash/detection/sideloader/loader.py", "load_validated_json"),
         ("antismash/common/secmet/record.py", "Record.has_name"),
         ("antismash/common/secmet/qualifiers/gene_functions.py", "GeneFunctionAnnotations.clear"),
         ("antismash/common/secmet/features/cds_feature.py", "CDSFeature.strip_antismash_annotations"),
@@ -261,6 +264,7 @@ class C11(Property):
         ("antismash/detection/cluster_hmmer/__init__.py", "run_on_record"),
         ("antismash/common/pfamdb.py", "get_db_version_from_path"),
         ("antismash/common/pfamdb.py", "find_latest_database_version"),
+        ("antismash/common/path.py", "find_latest_database_version"),
         ("antismash/common/hmmer.py", "HmmerHit.__post_init__"),
         ("antismash/common/hmmer.py", "HmmerHit.to_json"),
         ("antismash/common/hmmer.py", "HmmerHit.from_json"),
@@ -313,6 +317,9 @@ class C11(Property):
         "the rule names of an option set are computed in the model (rulesetNames) from the rule files' content as read by "
         "hmm_detection._get_rules (name, first strictness level, category) and compared with get_ruleset(options); "
         "results of records with genes are produced by the real run_on_record with only hmmsearch replaced by the case's hits",
+        "sideload annotation files are parsed by the model (SideOpts.loadFiles: tool, records matching the record's "
+        "identifiers, from_schema_json); jsonschema validation itself and its inserted defaults are exercised, not modelled; "
+        "'latest' pfam version: chosen by the model (latestVersion) from the installed directories, digit components only",
         "results file: the record body (record_to_json / record_from_json) is opaque in the model (C10); identical HMM hits "
         "inside one gene (one dictionary key in generate_domain_features) are not generated",
         "results classes of modules that need external binaries (clusterblast, …) are not modelled",
@@ -321,8 +328,8 @@ class C11(Property):
     # ------------------------------------------------------------------ case generation
     def cases(self, rng: random.Random, tier: str, deep: bool) -> Iterator[Dict[str, Any]]:
         scale = 6 if deep else 1
-        plan = [("hmmresult", 800), ("nrpspks", 450), ("hmmdet", 320), ("sideload", 800), ("hmmer", 1000),
-                ("tta", 500), ("resfile", 400), ("sideopt", 600), ("runmod", 24)]
+        plan = [("hmmresult", 500), ("nrpspks", 300), ("hmmdet", 220), ("sideload", 500), ("hmmer", 650),
+                ("tta", 350), ("resfile", 250), ("sideopt", 400), ("runmod", 24)]
         for kind, n in plan:
             if kind == "runmod":
                 yield from self.all_runmod()
@@ -577,8 +584,8 @@ class C11(Property):
                 cur["max_evalue"] = rng.choice(hit_evs)
             if mut.startswith("refilter"):
                 op = "refilter"
-        versions = ["31.0", "34.0", "35.0"]
-        installed = sorted(rng.sample(versions, rng.choice([1, 2, 3])), key=float)
+        versions = rng.choice([["31.0", "34.0", "35.0"], ["9.0", "10.0", "31.0"], ["35.0", "35.1", "35.10", "4.0"]])
+        installed = rng.sample(versions, rng.choice([1, 2, 3]))      # directory listing order is arbitrary
         pfam = {"stored": rng.choice(installed), "installed": installed,
                 "full": rng.choice(["latest"] + installed), "cluster": rng.choice(["latest"] + installed)}
         return {"kind": "hmmer", "module": rng.choice(["full_hmmer", "cluster_hmmer"]), "record_id": rng.choice(["rec1", "X.1"]),
@@ -1429,6 +1436,7 @@ class C11(Property):
         from antismash.detection.sideloader import SideloadSimple
         from antismash.detection.sideloader.general import load_single_record_annotations
         paths = []
+        raw_files: List[Any] = []
         for i, f in enumerate(o["files"]):
             recs = [{"name": case["record"]["id"],
                      "subregions": [dict(start=s["start"], end=s["end"], label=s["label"], **({"details": s["details"]} if s["details"] else {}))
@@ -1438,16 +1446,18 @@ class C11(Property):
             if f["other_record"]:
                 recs.append({"name": "someone_else", "subregions": [{"start": 1, "end": 900, "label": "x"}]})
             path = os.path.join(tmp, f"{tag}_{i}.json")
+            content = {"tool": f["tool"], "records": recs}
+            raw_files.append(to_wire(orjson.loads(orjson.dumps(content))))
             with open(path, "wb") as handle:
-                handle.write(orjson.dumps({"tool": f["tool"], "records": recs}))
+                handle.write(orjson.dumps(content))
             paths.append(path)
         simple = SideloadSimple(*o["simple"]) if o["simple"] else ""
         options = SimpleNamespace(sideload=paths, sideload_simple=simple, sideload_cds_markers=list(o["markers"]),
                                   sideload_cds_padding=o["padding"])
         view: Dict[str, Any] = {"n_files": len(paths), "simple": o["simple"], "markers": o["markers"], "padding": o["padding"]}
         if paths:
-            only_files = load_single_record_annotations(paths, record, None, [], o["padding"])
-            view["file"] = to_wire(orjson.loads(orjson.dumps(only_files.to_json())))
+            load_single_record_annotations(paths, record, None, [], o["padding"])     # must be loadable on their own
+            view["raw_files"] = raw_files
         return options, view
 
     def impl_sideopt(self, case: Dict[str, Any]) -> Dict[str, Any]:
@@ -1549,7 +1559,7 @@ class C11(Property):
                                "ctx": {"record_id": cur_record_id, "cds_names": [], "original_id": case["record_id"]},
                                "max_evalue": dec_of(max_e), "min_score": dec_of(min_s), "n_hits": len(hits),
                                "pfam": {"module": case["module"], "full": pfam["full"], "cluster": pfam["cluster"],
-                                        "latest": pfam["installed"][-1]}}
+                                        "installed": list(pfam["installed"])}}
         saved_consts = (module.MAX_EVALUE, module.MIN_SCORE)
         records: List[Any] = []
 
@@ -2058,7 +2068,8 @@ class C11(Property):
                 detail = detail or f"run_on_record after regeneration: implementation {obs['run']} vs model {drv.get('run')}"
             pf = case.get("pfam") or {"stored": "35.0", "installed": ["35.0"], "full": "latest", "cluster": "latest"}
             wanted = pf["full" if case["module"] == "full_hmmer" else "cluster"]
-            wanted = pf["installed"][-1] if wanted == "latest" else wanted
+            newest = sorted(pf["installed"], key=lambda v: (tuple(int(x) for x in v.split(".")), v))[-1]
+            wanted = newest if wanted == "latest" else wanted
             if obs["run"] == "keep" and not drv.get("keep_allowed", True) and drv["outcome"] == "reuse":
                 spec_ok = False
                 detail = ("PFAM results of another database version were kept although this module's option asks for "
